@@ -177,6 +177,9 @@ func (s *Server) Run(addr string, opt ...Option) error {
 		select {
 		case <-s.shutdownCtx.Done():
 			verifPoint("run.ctxdone", connID, 0)
+			// Stop may have been called before the listener existed, so
+			// make sure the listener doesn't outlive the server.
+			_ = s.listener.Close()
 			return nil
 		default:
 			// need a default to fall through to rest of loop...
